@@ -674,9 +674,14 @@ func (k *c18) genSeq(i int) *c18Scn {
 	sc := &c18Scn{init: gtidmodel.IvSet56{}, way: r.Intn(3), chainSeed: uint64(r.Intn(6)), origin: "random"}
 	sc.probeSIDs = pool // the fifth is never added: probes a SID that is absent
 	mode := r.Intn(5)
+	if r.Chance(1, 10) {
+		mode = 5 // dozens of intervals under one server (where a search may replace a scan)
+	}
 	var base int64 = 1
 	width := 4 + r.Intn(9)
 	switch mode {
+	case 5:
+		k.cell("window:many-intervals")
 	case 0:
 		k.cell("window:dense-at-1")
 	case 1:
@@ -703,6 +708,16 @@ func (k *c18) genSeq(i int) *c18Scn {
 				if mask>>uint(b)&1 == 1 {
 					sc.init = sc.init.AddInterval(pool[s], base+int64(b), base+int64(b))
 				}
+			}
+		}
+	} else if mode == 5 {
+		for s := 0; s < nS; s++ {
+			pos := c18Clamp(int64(r.U64()>>uint(34+r.Intn(28))) + 1)
+			for j, nj := 0, 33+r.Intn(100); j < nj; j++ {
+				start := pos + 2 + int64(r.Intn(3))
+				end := start + int64(r.Intn(3))
+				sc.init = sc.init.AddInterval(pool[s], start, end)
+				pos = end
 			}
 		}
 	} else {
